@@ -12,6 +12,7 @@ import (
 	"io"
 	"math"
 	"runtime"
+	"sort"
 	"strings"
 	"sync"
 
@@ -324,6 +325,13 @@ func summarizeCol(table *Table, col benchproc.Key, s *TableSummary, nBase int, i
 	if !isBase && (nBase != len(ratios) || len(summaries) != len(ratios)) {
 		s.Warnings = append(s.Warnings, fmt.Errorf("benchmark set differs from baseline; geomeans may not be comparable"))
 	}
+
+	// The geomean is computed as a running mean of logarithms, which is
+	// sensitive to the order of its arguments in the last bits. Rows
+	// are ordered by first observation, so fix the order of the values
+	// to make the summary a function of the set of cells alone.
+	sort.Float64s(summaries)
+	sort.Float64s(ratios)
 
 	// Summarize centers.
 	gm := stats.GeoMean(summaries)
